@@ -45,9 +45,12 @@ import (
 	authtypes "github.com/cosmos/cosmos-sdk/x/auth/types"
 	"github.com/cosmos/cosmos-sdk/x/authz"
 	banktypes "github.com/cosmos/cosmos-sdk/x/bank/types"
+	govtypes "github.com/cosmos/cosmos-sdk/x/gov/types"
+	govv1 "github.com/cosmos/cosmos-sdk/x/gov/types/v1"
 	stakingtypes "github.com/cosmos/cosmos-sdk/x/staking/types"
 	gethabi "github.com/ethereum/go-ethereum/accounts/abi"
 	gethcommon "github.com/ethereum/go-ethereum/common"
+	gethcore "github.com/ethereum/go-ethereum/core/types"
 	"github.com/ethereum/go-ethereum/crypto"
 
 	. "verifharness/hx"
@@ -60,6 +63,7 @@ import (
 	"github.com/NibiruChain/nibiru/v2/x/common/asset"
 	"github.com/NibiruChain/nibiru/v2/x/common/omap"
 	"github.com/NibiruChain/nibiru/v2/x/common/testutil/testapp"
+	devgastypes "github.com/NibiruChain/nibiru/v2/x/devgas/v1/types"
 	epochstypes "github.com/NibiruChain/nibiru/v2/x/epochs/types"
 	"github.com/NibiruChain/nibiru/v2/x/evm"
 	"github.com/NibiruChain/nibiru/v2/x/evm/embeds"
@@ -120,6 +124,10 @@ const nCoins = 3
 
 var oraclePairs = []asset.Pair{"ubtc:uusd", "ueth:uusd", "uatom:uusd"}
 
+// pool for whitelist edits (the first three are the pairs the validators vote on)
+var pairPool = []asset.Pair{"ubtc:uusd", "ueth:uusd", "uatom:uusd", "usol:uusd", "uada:uusd", "ubnb:uusd", "uavax:uusd",
+	"uosmo:uusd", "udot:uusd", "ulink:uusd", "uusdc:uusd", "uusdt:uusd", "unibi:uusd", "uxrp:uusd"}
+
 type world struct {
 	root    *secp256k1.PrivKey
 	users   []*secp256k1.PrivKey
@@ -177,6 +185,13 @@ func (w *world) buildGenesis() []byte {
 	gen[epochstypes.ModuleName] = cdc.MustMarshalJSON(epochstypes.DefaultGenesisFromTime(GenesisTime))
 	gen[sudotypes.ModuleName] = cdc.MustMarshalJSON(&sudotypes.GenesisState{
 		Sudoers: sudotypes.Sudoers{Root: accAddr(w.root).String(), Contracts: []string{}}})
+
+	var govGen govv1.GenesisState
+	cdc.MustUnmarshalJSON(gen[govtypes.ModuleName], &govGen)
+	vp := 20 * time.Second
+	govGen.Params.VotingPeriod = &vp
+	govGen.Params.MinDeposit = sdk.NewCoins(sdk.NewInt64Coin("unibi", 1_000_000))
+	gen[govtypes.ModuleName] = cdc.MustMarshalJSON(&govGen)
 
 	ig := inflationtypes.DefaultGenesisState()
 	ig.Params.InflationEnabled = true
@@ -288,6 +303,7 @@ type replica struct {
 	c         *Chain
 	pending   map[int]*prevote
 	contracts []gethcommon.Address
+	nProposals  int
 	pcContracts []int // indices of contracts whose runtime ends with a precompile call
 	shapes    [][2]int // (slots, targets) of contracts
 	funtokens map[int]gethcommon.Address
@@ -583,6 +599,100 @@ func (r *replica) apply(op c01Op) []abci.ResponseDeliverTx {
 		inner := banktypes.NewMsgSend(accAddr(w.users[g]), freshAddr(op.C), Unibi(7))
 		msg := authz.NewMsgExec(accAddr(w.users[e]), []sdk.Msg{inner})
 		return one(c.DeliverCosmos(w.users[e], 600_000, fee, &msg))
+	case "oparams": // sudo-gated oracle params edit: whitelist with many entries, in random order, with duplicates
+		sender := w.root
+		if op.B == 1 {
+			sender = w.users[2]
+		}
+		var wl []asset.Pair
+		for _, id := range op.L {
+			wl = append(wl, pairPool[id%len(pairPool)])
+		}
+		return one(c.DeliverCosmos(sender, 900_000, fee, &oracletypes.MsgEditOracleParams{Sender: accAddr(sender).String(),
+			Params: &oracletypes.OracleParamsMsg{Whitelist: wl}}))
+	case "iparams": // sudo-gated inflation params edit: polynomial factors (repeated Dec) incl. repeated values
+		sender := w.root
+		if op.B == 1 {
+			sender = w.users[2]
+		}
+		var fs []sdk.Dec
+		for _, id := range op.L {
+			fs = append(fs, sdkmath.LegacyNewDecWithPrec(int64(id%9)*1_000_000-3_000_000, 6))
+		}
+		return one(c.DeliverCosmos(sender, 900_000, fee, &inflationtypes.MsgEditInflationParams{Sender: accAddr(sender).String(),
+			InflationEnabled: true, PolynomialFactors: fs}))
+	case "tfmeta": // bank metadata of a tokenfactory denom with many denom units / aliases (A: 0 admin, 1 sudo, 2 stranger)
+		if len(r.tfDenoms) == 0 {
+			return none
+		}
+		k := op.B % len(r.tfDenoms)
+		base := r.tfDenoms[k]
+		md := banktypes.Metadata{Base: base, Display: base, Name: fmt.Sprintf("tf%d", k), Symbol: fmt.Sprintf("TF%d", k),
+			DenomUnits: []*banktypes.DenomUnit{{Denom: base, Exponent: 0}}}
+		for j, id := range op.L {
+			var al []string
+			for a := 0; a <= id%4; a++ {
+				al = append(al, fmt.Sprintf("al%dx%d", id, a))
+			}
+			md.DenomUnits = append(md.DenomUnits, &banktypes.DenomUnit{Denom: fmt.Sprintf("unit%d", id), Exponent: uint32(j + 1), Aliases: al})
+		}
+		switch op.A % 3 {
+		case 1:
+			return one(c.DeliverCosmos(w.root, 1_500_000, fee, &tftypes.MsgSudoSetDenomMetadata{Sender: accAddr(w.root).String(), Metadata: md}))
+		case 2:
+			u := w.users[(r.tfOwner[k]+1)%nUsers]
+			return one(c.DeliverCosmos(u, 1_500_000, fee, &tftypes.MsgSetDenomMetadata{Sender: accAddr(u).String(), Metadata: md}))
+		default:
+			u := w.users[r.tfOwner[k]]
+			return one(c.DeliverCosmos(u, 1_500_000, fee, &tftypes.MsgSetDenomMetadata{Sender: accAddr(u).String(), Metadata: md}))
+		}
+	case "ethacl": // EVM transfer carrying an access list with many (repeated) addresses and storage keys
+		var al gethcore.AccessList
+		for _, id := range op.L {
+			t := gethcore.AccessTuple{Address: gethcommon.BytesToAddress(freshAddr(500000 + id%7).Bytes())}
+			for kx := 0; kx <= id%3; kx++ {
+				t.StorageKeys = append(t.StorageKeys, gethcommon.BigToHash(big.NewInt(int64(id%5+kx))))
+			}
+			al = append(al, t)
+		}
+		i := op.A % nEth
+		to := gethcommon.BytesToAddress(freshAddr(op.B).Bytes())
+		msg, err := c.SignEth(w.eths[i], &evm.EvmTxArgs{Nonce: r.ethNonce(i), GasLimit: 400_000, GasPrice: gasPrice, To: &to,
+			Amount: big.NewInt(int64(op.C) * 1_000_000_000_000), Accesses: &al})
+		if err != nil {
+			return one(abci.ResponseDeliverTx{Code: 9998, Log: err.Error()})
+		}
+		return one(c.DeliverEth(msg))
+	case "govparams": // gov proposal carrying a module params update with list-valued fields; the validators vote yes
+		auth := authtypes.NewModuleAddress(govtypes.ModuleName).String()
+		var inner sdk.Msg
+		if op.A%2 == 0 {
+			p := evm.DefaultParams()
+			for _, id := range op.L {
+				p.EVMChannels = append(p.EVMChannels, fmt.Sprintf("channel-%d", id))
+			}
+			inner = &evm.MsgUpdateParams{Authority: auth, Params: p}
+		} else {
+			p := devgastypes.DefaultParams()
+			p.AllowedDenoms = nil
+			for _, id := range op.L {
+				p.AllowedDenoms = append(p.AllowedDenoms, fmt.Sprintf("ucoin%d", id))
+			}
+			inner = &devgastypes.MsgUpdateParams{Authority: auth, Params: p}
+		}
+		u := w.users[op.B%nUsers]
+		sp, err := govv1.NewMsgSubmitProposal([]sdk.Msg{inner}, Unibi(2_000_000), accAddr(u).String(), "", "params", "list-valued params")
+		if err != nil {
+			panic(err)
+		}
+		out := []abci.ResponseDeliverTx{c.DeliverCosmos(u, 2_000_000, fee, sp)}
+		if out[0].Code == 0 {
+			r.nProposals++
+			for _, v := range w.valOps {
+				out = append(out, c.DeliverCosmos(v, 600_000, fee, govv1.NewMsgVote(accAddr(v), uint64(r.nProposals), govv1.OptionYes, "")))
+			}
+		}
+		return out
 	case "delegate":
 		u := w.users[op.A%nUsers]
 		val := sdk.ValAddress(accAddr(w.valOps[op.B%nVals]))
@@ -803,6 +913,9 @@ func runDiff(w *world, in c01Input, withChild bool) diffObs {
 		rates := r.c.App.OracleKeeper.ExchangeRates.Iterate(ctx, collections.Range[asset.Pair]{}).KeyValues()
 		miss := r.c.App.OracleKeeper.MissCounters.Iterate(ctx, collections.Range[sdk.ValAddress]{}).KeyValues()
 		su, _ := r.c.App.SudoKeeper.Sudoers.Get(ctx)
+		op, _ := r.c.App.OracleKeeper.Params.Get(ctx)
+		fmt.Printf("DEBUG whitelist=%v evmchannels=%v devgas=%v infl=%v\n", op.Whitelist, r.c.App.EvmKeeper.GetParams(ctx).EVMChannels,
+			r.c.App.DevGasKeeper.GetParams(ctx).AllowedDenoms, r.c.App.InflationKeeper.GetPolynomialFactors(ctx))
 		fmt.Printf("DEBUG accounts=%d rates=%v miss=%v sudo=%d\n", n, rates, miss, len(su.Contracts))
 		for _, v := range r.c.App.StakingKeeper.GetAllValidators(ctx) {
 			fmt.Printf("DEBUG val %s status=%v jailed=%v tokens=%s rewards=%v\n", v.OperatorAddress[:20], v.Status, v.Jailed, v.Tokens, r.c.App.DistrKeeper.GetValidatorOutstandingRewardsCoins(ctx, v.GetOperator()))
@@ -848,6 +961,15 @@ func genDiff(r *Rng, opener int) c01Input {
 			// historic failure shape: several sudo contracts in one edit
 			blk.Ops = append(blk.Ops, c01Op{Kind: "sudo", A: 1, L: []int{4 * b, 4*b + 1, 4*b + 2, 4*b + 3}})
 		}
+		if opener == 4 && b < 4 {
+			// a sudo-signed whitelist edit listing one pair twice among many
+			l := []int{5, 0, 9, 3, 1, 11, 7, 2, 4, 9, 13, 6}
+			l[b], l[11-b] = l[11-b], l[b]
+			blk.Ops = append(blk.Ops, c01Op{Kind: "oparams", L: l}, c01Op{Kind: "iparams", L: []int{1, 4, 4, 2, 7, 1}})
+		}
+		if opener == 4 && b == 4 {
+			blk.Ops = append(blk.Ops, c01Op{Kind: "govparams", A: 0, B: 1, L: []int{3, 1, 4, 1, 5, 2, 6, 5, 3}}, c01Op{Kind: "govparams", A: 1, B: 2, L: []int{2, 0, 1, 2, 0, 1, 2, 0}})
+		}
 		if opener == 3 && b == 0 {
 			blk.Ops = append(blk.Ops, c01Op{Kind: "deploy", A: 0, B: 2, C: 10, L: []int{1}})
 		}
@@ -864,6 +986,59 @@ func genDiff(r *Rng, opener int) c01Input {
 			blk.Ops = append(blk.Ops, c01Op{Kind: "call", A: b, B: 0, C: next() * 16})
 		}
 		for i := 0; i < n; i++ {
+			// list-valued fields: many entries, random order, duplicates
+			manyDup := func(lo, hi, mod int) []int {
+				n := r.Range(lo, hi)
+				var l []int
+				for j := 0; j < n; j++ {
+					l = append(l, r.Intn(mod))
+				}
+				if n >= 2 && r.Chance(4, 5) { // force at least one repeat
+					l[r.Intn(n)] = l[r.Intn(n)]
+					l = append(l, l[r.Intn(len(l))])
+				}
+				return l
+			}
+			switch r.Pick(30, 3, 1, 2, 2, 1, 2) {
+			case 1:
+				l := append([]int{0, 1, 2}, manyDup(5, 10, len(pairPool))...)
+				for j := len(l) - 1; j > 0; j-- { // shuffle
+					k := r.Intn(j + 1)
+					l[j], l[k] = l[k], l[j]
+				}
+				sender := 0
+				if r.Chance(1, 10) {
+					sender = 1
+				}
+				blk.Ops = append(blk.Ops, c01Op{Kind: "oparams", B: sender, L: l})
+				continue
+			case 2:
+				fl := manyDup(6, 6, 9)
+				if r.Chance(9, 10) {
+					fl = fl[:6]
+				}
+				blk.Ops = append(blk.Ops, c01Op{Kind: "iparams", B: r.Pick(8, 1), L: fl})
+				continue
+			case 3:
+				l := manyDup(6, 10, 40)
+				if r.Chance(2, 3) { // bank metadata rejects repeated units: mostly distinct
+					l = nil
+					for j, n := 0, r.Range(8, 11); j < n; j++ {
+						l = append(l, 3*j+r.Intn(3))
+					}
+				}
+				blk.Ops = append(blk.Ops, c01Op{Kind: "tfmeta", A: r.Intn(3), B: r.Intn(8), L: l})
+				continue
+			case 4:
+				blk.Ops = append(blk.Ops, c01Op{Kind: "ethacl", A: r.Intn(nEth), B: next(), C: 1 + r.Intn(9), L: manyDup(8, 12, 30)})
+				continue
+			case 5:
+				blk.Ops = append(blk.Ops, c01Op{Kind: "govparams", A: r.Intn(2), B: r.Intn(nUsers), L: manyDup(8, 12, 9)})
+				continue
+			case 6:
+				blk.Ops = append(blk.Ops, c01Op{Kind: "sudo", A: r.Pick(3, 1), L: manyDup(8, 12, 24)})
+				continue
+			}
 			switch r.Pick(3, 2, 3, 4, 2, 2, 3, 5, 2, 2, 1, 2, 2, 2, 4, 1) {
 			case 14:
 				blk.Ops = append(blk.Ops, c01Op{Kind: "callpc", A: r.Intn(200), B: r.Intn(4), C: next() * 16, L: []int{r.Intn(3)}})
@@ -1191,7 +1366,7 @@ func TestC01(t *testing.T) {
 	rng := NewRng(cfg.Seed)
 	for i := 0; i < cfg.N; i++ {
 		opener := 0
-		if i < 3 {
+		if i < 4 {
 			opener = i + 1
 		}
 		in := genDiff(rng.Fork(), opener)
